@@ -1260,7 +1260,7 @@ pub fn run(ctx: &Ctx) -> PropertyReport {
         rep.push(r);
     }
     if sub.runs("regeneration") {
-        let cases = ctx.cfg.cases(6_000, 200_000);
+        let cases = ctx.cfg.cases(6_000, 1_000_000);
         let mut r = ctx.run_prop("regeneration", cases, regen_strategy, regen_body);
         r.floor("place_has_properties_the_database_does_not_know", cases / 10);
         r.floor("default_value_patch", cases / 10);
@@ -1289,7 +1289,7 @@ pub fn run(ctx: &Ctx) -> PropertyReport {
         rep.push(r);
     }
     if sub.runs("generated-databases") {
-        let cases = ctx.cfg.cases(60_000, 1_500_000);
+        let cases = ctx.cfg.cases(60_000, 6_000_000);
         let mut r = ctx.run_prop("generated-databases", cases, gen_db_strategy, gen_db_body);
         r.floor("depth>=8", cases / 20);
         r.floor("target_chain>=7", cases / 20);
@@ -1301,7 +1301,7 @@ pub fn run(ctx: &Ctx) -> PropertyReport {
         rep.push(ctx.run_list("class-defaults", cases, true, class_body));
     }
     if sub.runs("corruption-self-test") {
-        let cases = ctx.cfg.cases(400, 20_000);
+        let cases = ctx.cfg.cases(400, 100_000);
         let strat = || (0u8..7, any::<u16>(), any::<u16>()).prop_map(|(kind, class_sel, prop_sel)| Corruption { kind, class_sel, prop_sel });
         let mut r = ctx.run_prop("corruption-self-test", cases, strat, corruption_body);
         for l in ["dangling_alias", "missing_superclass", "wrong_default_type", "dangling_serializes_as", "unknown_enum", "default_for_unknown_property", "superclass_cycle"] {
